@@ -43,7 +43,10 @@ Init == \/ /\ mode = "admit" /\ kind \in Kinds /\ ext \in Exts /\ ecase \in {"lo
            \* sort or append produce); the other orders keep it first
            /\ order \in (IF kind \in Zips THEN {"canonical", "reversed", "decoyfirst"} \cup (IF kind \in {"odt", "epub"} THEN {"mimelast", "mimelast-decoyfirst"} ELSE {})
                           ELSE {"canonical"})
-           /\ decoy \in (IF kind \in Zips THEN {"none", "word", "xl", "ppt"} ELSE {"none"})
+           \* "x+rels": the stray main part of an OOXML format together with a package relationship file naming it, inside an
+           \* ODF / EPUB package (whose mimetype member says what it is; without [Content_Types].xml it is no OOXML package)
+           /\ decoy \in (IF kind \in Zips THEN {"none", "word", "xl", "ppt"} \cup (IF kind \in {"odt", "epub"} THEN {"word+rels", "xl+rels", "ppt+rels"} ELSE {})
+                          ELSE {"none"})
            /\ epub = NoEpub
            \* how the package relationship names the main part of an OOXML document: relative ("xl/workbook.xml"),
            \* absolute ("/xl/workbook.xml") or with a dot segment ("./xl/workbook.xml") - all three are the same part
